@@ -356,6 +356,8 @@ def _question_roundtrip_rule(ctx):
         ("integer with constraint message", "pyxform.question:InputQuestion", {"name": "i", "type": "integer", "label": "I", "bind": {"constraint": ". > 0", "jr:constraintMsg": {"en": "m"}}}),
         ("photo with parameters", "pyxform.question:UploadQuestion", {"name": "p", "type": "photo", "label": "P", "bind": {"orx:max-pixels": "640"}, "control": {"intent": "x.y"}}),
         ("select with own control override", "pyxform.question:MultipleChoiceQuestion", {"name": "s", "type": "select one", "label": "S", "itemset": "l", "list_name": "l", "control": {"appearance": "minimal"}, "bind": {"type": "int"}}),
+        ("legacy type whose default hint is overridden", "pyxform.question:InputQuestion", {"name": "d", "type": "number of days in last month", "label": "D", "hint": "my own hint"}),
+        ("legacy type keeping its default hint", "pyxform.question:InputQuestion", {"name": "d2", "type": "number of days in last month", "label": "D"}),
         ("geopoint with accuracy", "pyxform.question:InputQuestion", {"name": "g", "type": "geopoint", "label": "G", "control": {"accuracyThreshold": "5"}, "bind": {"odk:allow-mock-accuracy": "true"}}),
     ]
     keep = ("name", "type", "label", "hint", "bind", "control", "parameters", "default", "itemset", "list_name", "media", "instance", "choice_filter", "trigger", "query")
